@@ -169,3 +169,27 @@ Theorem C17_pkce_bound_nonvacuous :
        /\ t_verifier r = Some "vb".
 Proof. exact pkce_bound_nonvacuous. Qed.
 Print Assumptions C17_pkce_bound_nonvacuous.
+
+(* ---- other API calls on the same RP value (rp.ClientCredentials, RefreshTokens,
+   Userinfo, EndSession, RevokeToken, DeviceAuthorization, CodeExchange,
+   GenerateAndStoreCodeChallenge, AuthURL with other options, JWT profile assertion) ---- *)
+
+(* Every history, API calls anywhere in it: the answers to the logins and callbacks
+   are those of the history without the API calls. *)
+Theorem C17_api_calls_inert : forall H cfg j ops,
+  run H cfg j (filter (fun o => negb (is_api o)) ops)
+  = filter (fun e => negb (is_probe e)) (run H cfg j ops).
+Proof. exact api_inert. Qed.
+Print Assumptions C17_api_calls_inert.
+
+(* After any API call, with any jar: rp.AuthURL(state, rp) goes to the configured
+   endpoint with the configured client, redirect URI, scopes and that state. *)
+Theorem C17_probe_url : forall H cfg j l,
+  exists ps, respond H cfg j (OApi l) = EvProbe (c_auth cfg) ps
+  /\ plookup "response_type" ps = Some "code"
+  /\ plookup "client_id" ps = Some (c_client cfg)
+  /\ (c_redirect cfg <> "" -> plookup "redirect_uri" ps = Some (c_redirect cfg))
+  /\ (c_scopes cfg <> [] -> plookup "scope" ps = Some (String.concat " " (c_scopes cfg)))
+  /\ form ps "state" = probe_state.
+Proof. exact probe_url. Qed.
+Print Assumptions C17_probe_url.
